@@ -22,13 +22,72 @@ from typing import Dict, List, Optional, Set, Tuple
 HERE = os.path.dirname(os.path.abspath(__file__))
 
 
-def load_baseline() -> Dict[str, Set[str]]:
+def load_baseline() -> Dict[str, Dict[str, dict]]:
     p = os.path.join(HERE, "baseline_funcs.json")
     try:
         with open(p, encoding="utf-8") as f:
-            return {k: set(v) for k, v in json.load(f).items()}
+            raw = json.load(f)
     except OSError:
         return {}
+    out = {}
+    for k, v in raw.items():
+        out[k] = v if isinstance(v, dict) else {q: {} for q in v}
+    return out
+
+
+def _call_names(fn: ast.AST) -> Set[str]:
+    out = set()
+    for x in _walk_own(fn):
+        if isinstance(x, ast.Call):
+            if isinstance(x.func, ast.Name):
+                out.add(x.func.id)
+            elif isinstance(x.func, ast.Attribute):
+                out.add(x.func.attr)
+    return out
+
+
+def _params(fn: ast.FunctionDef) -> List[str]:
+    a = fn.args
+    out = [x.arg for x in a.posonlyargs + a.args]
+    if a.vararg:
+        out.append("*" + a.vararg.arg)
+    out += [x.arg for x in a.kwonlyargs]
+    if a.kwarg:
+        out.append("**" + a.kwarg.arg)
+    return out
+
+
+def detect_renames(funcs: Dict[str, "_Info"], base: Dict[str, dict]) -> Dict[str, str]:
+    """{new qualname: baseline qualname} for functions that were merely renamed: a baseline name is
+    gone, a non-baseline function sits in the same scope with the same parameters and (nearly) the
+    same set of callees."""
+    out: Dict[str, str] = {}
+    missing = [q for q in base if q not in funcs and base[q]]
+    extra = [q for q in funcs if q not in base]
+    for m in missing:
+        scope = m.rsplit(".", 1)[0] if "." in m else ""
+        best, best_s = None, 0.0
+        for u in extra:
+            if u in out:
+                continue
+            uscope = u.rsplit(".", 1)[0] if "." in u else ""
+            if uscope != scope:
+                continue
+            bp, up = base[m].get("params", []), _params(funcs[u].node)
+            if len(bp) != len(up):
+                continue
+            same_p = sum(1 for a, b in zip(bp, up) if a == b) / max(1, len(bp))
+            bc, uc = set(base[m].get("calls", [])), _call_names(funcs[u].node)
+            # callers of renamed siblings also change their callee names: ignore private names
+            bc = {c for c in bc if not c.startswith("_")}
+            uc = {c for c in uc if not c.startswith("_")}
+            jac = len(bc & uc) / max(1, len(bc | uc)) if (bc or uc) else 1.0
+            score = 0.5 * same_p + 0.5 * jac
+            if same_p >= 0.5 and jac >= 0.6 and score > best_s:
+                best, best_s = u, score
+        if best is not None:
+            out[best] = m
+    return out
 
 
 class _Info:
@@ -240,7 +299,7 @@ def _bind(call: ast.Call, info: _Info, is_method_call: bool) -> Tuple[Dict[str, 
 
 
 class Inliner:
-    def __init__(self, tree: ast.Module, modname: str, baseline: Optional[Set[str]]):
+    def __init__(self, tree: ast.Module, modname: str, baseline):
         self.tree = tree
         self.modname = modname
         self.baseline = baseline
@@ -249,8 +308,12 @@ class Inliner:
         self.done: List[str] = []
         self.bases: Dict[str, List[str]] = {}
         self._collect(tree.body, None)
+        self.renamed: Dict[str, str] = {}
         if baseline is not None:
+            self.renamed = detect_renames(self.funcs, baseline)
             for q, inf in self.funcs.items():
+                if q in self.renamed:
+                    continue  # a renamed baseline function is an anchor, not an extracted helper
                 if q not in baseline and q.split(".")[-1].startswith("_") and not q.split(".")[-1].startswith("__"):
                     self.unknown[q] = inf
 
@@ -592,10 +655,11 @@ class Inliner:
                         body.append(ast.Pass())
 
 
-def inline_unknown_helpers(tree: ast.Module, modname: str, baseline_all: Dict[str, Set[str]]) -> List[str]:
+def inline_unknown_helpers(tree: ast.Module, modname: str, baseline_all) -> Tuple[List[str], Dict[str, str]]:
     if not baseline_all:
-        return []
+        return [], {}
     base = baseline_all.get(modname)
     if base is None:
-        return []  # a new module: nothing is anchored in it
-    return Inliner(tree, modname, base).run()
+        return [], {}  # a new module: nothing is anchored in it
+    inl = Inliner(tree, modname, base)
+    return inl.run(), inl.renamed
